@@ -12,6 +12,12 @@ Case kinds
   {"kind":"w3c","suite":"ntriples"|"nquads"}   the W3C syntax tests shipped with rdflib through both strict
         readers (sanity check of the reference) and the positive ones through rdflib.
 
+  {"kind":"ntline","nq":bool,"lines":[…],"docs":[…]}   round g: single lines (legal, lenient, malformed) and small
+        documents (line-end kinds, unterminated / white-space last lines) through rdflib's N-Triples / N-Quads parser
+        and through the Lean MODEL OF THAT PARSER (RV/C05/NtParser.lean): same triple / quad, same exception kind.
+        The same comparison is made for every line and document of the spell nt/nquads streams, for rdflib's own
+        output lines (out) and for every W3C test file, positive and negative (w3c).
+
 Observations compared with the Lean driver (lean/RV/C05/Drive.lean):
   spell nt/nquads : what the strict Lean reader makes of the rendered document  vs  the graph rdflib read
   spell turtle/trig: every string token / PN_LOCAL / relative reference the writer produced, recomputed by the
@@ -32,6 +38,7 @@ import xml.dom.minidom
 
 import core  # noqa: F401  (puts the repository under test first on sys.path)
 import c05_spell as sp
+import c05_ntp as ntp
 import isoutil
 from rdflib import BNode, Dataset, Graph, Literal, URIRef
 
@@ -49,7 +56,9 @@ RULE = ("random graphs/datasets (IRIs in several namespaces incl. query/fragment
         "nasty character pool, language tags, datatypes, shorthand-able and not shorthand-able numerics, blank nodes, "
         "collections, blank-node graph names) rendered by the independent writer under 3-8 choice streams per case "
         "in N-Triples, N-Quads, Turtle, TriG, RDF/XML, JSON-LD and parsed through 5 carriers plus 0-3 further ways of calling parse() per case (operand kinds, format aliases, targets, re-use, keywords: see design.d/C05.md surface audit); rdflib's own "
-        "nt/nquads/xml/pretty-xml/trix/json-ld output checked by strict readers; non-trivial = at least one document "
+        "nt/nquads/xml/pretty-xml/trix/json-ld output checked by strict readers; round g: ntline cases (7 %: 24-40 single N-Triples / N-Quads lines "
+        "composed from pools of legal, lenient and malformed tokens, 4 small documents with every line-end kind) and every line / document of the "
+        "nt/nquads streams, of rdflib's own output and of the W3C suites go through rdflib's parser and the Lean model of that parser; non-trivial = at least one document "
         "was parsed (or one output produced) for a non-empty graph; distinct = distinct (kind, fmt, graph, streams)")
 ASSUMPTIONS = [
     "terms are compared as rdflib constructs them from (lexical form, datatype, language) with its default literal "
@@ -58,6 +67,8 @@ ASSUMPTIONS = [
     "the document base is given explicitly (publicID) so that all carriers resolve relative IRIs alike",
 ]
 TRUSTED = [
+    "harness/c05_ntp.py: the hand transcription of rdflib's N-Triples regular expressions into the Lean matchers of RV/C05/NtParser.lean is "
+    "trusted only as far as the per-line comparison on the ntline stream reaches (every class of token the pools produce)",
     "harness/c05_spell.py document-level writers (Turtle/TriG/RDF-XML/JSON-LD/N-Triples/N-Quads): trusted to emit "
     "legal text meaning the given graph; their string, PN_LOCAL and relative-IRI tokens are recomputed and read back "
     "by the verified Lean codecs on every run; N-Triples/N-Quads documents are additionally read by the Lean reader",
@@ -464,6 +475,8 @@ def gen_case(rng, tier, i):
     if rng.random() < 0.04:
         return gen_utf8_case(rng)
     r = rng.random()
+    if r > 0.93 or i == 3:
+        return ntp.gen_case(rng, tier)
     if r < 0.2:
         return {"kind": "out", "quads": gen_quads(rng, rng.random() < 0.6, rng.randint(0, 7)),
                 "oways": rng.sample(OWAYS, rng.choice([0, 1, 2]) if tier == "quick" else rng.choice([3, 5]))}
@@ -713,6 +726,7 @@ def run_out(case):
         viol.append(f"nt-invalid: rdflib's N-Triples output is not legal N-Triples (at {str(e)!r}) :: {nt[:300]!r}")
     # ---- N-Quads
     nq = ds.serialize(format="nquads")
+    nq_text = nq
     obs.append(enc_quads(ds_quads(ds), True))
     try:
         back = strict_read(nq, True)
@@ -775,6 +789,10 @@ def run_out(case):
         except Exception as e:
             tag = "json-illformed" if fmt == "json-ld" else "xml-illformed"
             viol.append(f"{tag}: {fmt} output is not well-formed ({type(e).__name__}: {str(e)[:80]}) :: {text[:200]!r}")
+    # ---- round g: rdflib's own output lines through rdflib's parser, compared with the model of that parser
+    o = ntp_obs(nt, False, whole=False, sort=True) + ntp_obs(nq_text, True, whole=False, sort=True)
+    stats["ntp_lines"] = len(o)
+    obs += o
     return {"obs": obs, "viol": viol, "nontrivial": bool(quads), "key": "out:" + json.dumps(quads, sort_keys=True),
             "stats": {**stats, "quads": len(quads)}}
 
@@ -1026,6 +1044,12 @@ def run_spell(case):
             check_ways(case, fmt, doc, quads, viol, stats, base, seed)
         if fmt in BOM_FORMATS and seed == case["streams"][0]:
             obs.append(bom_variant(fmt, doc, quads, viol, stats, base))
+    if fmt in ("nt", "nquads"):     # round g: the model of rdflib's parser on every document and every line of it
+        for seed in case["streams"]:
+            doc, _ch = render(fmt, quads, seed, off, base)
+            o = ntp_obs(doc, fmt == "nquads")
+            stats["ntp_lines"] = stats.get("ntp_lines", 0) + len(o)
+            obs += o
     return {"obs": obs, "viol": viol, "nontrivial": bool(quads),
             "key": "spell:" + fmt + json.dumps(quads, sort_keys=True) + str(case["streams"]),
             "stats": {**stats, "quads": len(quads), "streams": len(case["streams"])}}
@@ -1080,6 +1104,12 @@ def run_w3c(case):
                     viol.append(f"w3c-wrong-graph: rdflib reads W3C positive test {suite}/{name} as a different graph")
             except Exception as e:
                 viol.append(f"w3c-parse-error: rdflib does not parse W3C positive test {suite}/{name}: {_exc(e)} :: {doc[:200]!r}")
+    # round g: every test file, positive and negative, through rdflib's parser  vs  the model of that parser
+    for name, _positive in tests:
+        doc = open(os.path.join(d, name), encoding="utf-8", newline="").read()
+        o = ntp.real_doc(doc, nq)
+        stats["w3c_ntp_" + o.split(" ")[0].split(":")[0]] = stats.get("w3c_ntp_" + o.split(" ")[0].split(":")[0], 0) + 1
+        obs.append(o)
     return {"obs": obs, "viol": viol, "nontrivial": True, "key": "w3c:" + suite, "stats": stats}
 
 
@@ -1136,8 +1166,73 @@ def run_utf8(case):
                       "utf8_rejects": sum(1 for o in obs if o == "reject"), "utf8_route_reads": 3 * len(case["docs"])}}
 
 
+NTP_MAX_LINES = 40
+
+
+def ntp_split(doc, sort=False):
+    ls = re.split("[\r\n]", doc)
+    if sort:
+        ls = sorted(set(ls))
+    return ls[:NTP_MAX_LINES]
+
+
+def ntp_obs(doc, nq, whole=True, sort=False):
+    """what rdflib's N-Triples / N-Quads parser hands on for the document and for each of its lines"""
+    return ([ntp.real_doc(doc, nq)] if whole else []) + [ntp.real_line(l, nq) for l in ntp_split(doc, sort)]
+
+
+def ntp_lines(doc, nq, whole=True, sort=False):
+    """the same questions to the Lean model of that parser"""
+    c = "nq" if nq else "nt"
+    return ([c + "pd " + cps(doc)] if whole else []) + [c + "pl " + cps(l) for l in ntp_split(doc, sort)]
+
+
+def ntp_oracle(text, nq, got, viol, what):
+    """the property's clause, decided without the model: what the W3C grammar accepts, rdflib reads as that"""
+    try:
+        ref = strict_read(text, nq)
+    except Reject:
+        return False
+    rows = sorted(set(ntp.canon_model("ok " + r, nq, False)[3:] for r in enc_jquads(ref, nq)[2:].split(" ; ") if r.strip()))
+    want = "ok" + "".join(" ; " + r for r in rows)
+    if not got.startswith("ok"):
+        viol.append(f"ntparser-reject: rdflib's {'N-Quads' if nq else 'N-Triples'} parser raises {got} on the legal {what} {text[:200]!r}")
+    else:
+        g = "ok" + "".join(" ; " + r for r in sorted(set(r.strip() for r in got[2:].split(" ; ") if r.strip() not in ("", "-"))))
+        if g != want:
+            viol.append(f"ntparser-wrong: rdflib's {'N-Quads' if nq else 'N-Triples'} parser reads the legal {what} {text[:200]!r} "
+                        f"as {got[:200]} instead of {want[:200]}")
+    return True
+
+
+def run_ntline(case):
+    nq = case["nq"]
+    obs, viol = [], []
+    stats = {"ntline_cases": 1, "ntline_lines": len(case["lines"]), "ntline_docs": len(case["docs"])}
+    for l in case["lines"]:
+        o = ntp.real_line(l, nq)
+        obs.append(o)
+        kind = "blank" if o == "ok -" else o.split(" ")[0].split(":")[0]
+        stats["ntline_" + kind] = stats.get("ntline_" + kind, 0) + 1
+        legal = ntp_oracle(l, nq, o, viol, "line")
+        if legal:
+            stats["ntline_legal"] = stats.get("ntline_legal", 0) + 1
+        elif o.startswith("ok"):
+            stats["ntline_lenient_accept"] = stats.get("ntline_lenient_accept", 0) + 1
+    for d in case["docs"]:
+        o = ntp.real_doc(d, nq)
+        obs.append(o)
+        stats["ntdoc_" + o.split(" ")[0].split(":")[0]] = stats.get("ntdoc_" + o.split(" ")[0].split(":")[0], 0) + 1
+        if ntp_oracle(d, nq, o, viol, "document"):
+            stats["ntdoc_legal"] = stats.get("ntdoc_legal", 0) + 1
+    return {"obs": obs, "viol": viol, "nontrivial": any(o.startswith("ok ") for o in obs),
+            "key": "ntline:" + json.dumps(case, sort_keys=True), "stats": stats}
+
+
 def run_impl(case):
     k = case["kind"]
+    if k == "ntline":
+        return run_ntline(case)
     if k == "utf8":
         return run_utf8(case)
     if k == "spell":
@@ -1156,6 +1251,9 @@ def run_impl(case):
 
 def model_lines(case):
     k = case["kind"]
+    if k == "ntline":
+        c = "nq" if case["nq"] else "nt"
+        return [c + "pl " + cps(l) for l in case["lines"]] + [c + "pd " + cps(d) for d in case["docs"]]
     if k == "utf8":
         nums = lambda xs: " ".join(map(str, xs))  # noqa: E731
         return (["u8e " + nums(c) for c in case["cps"]] + ["u8d " + nums(b) for b in case["bytes"]] +
@@ -1165,7 +1263,9 @@ def model_lines(case):
         quads = case["quads"]
         g = build([q for q in quads if q[3] is None], False)
         ds = build(quads, True)
-        return ["ntdoc " + cps(g.serialize(format="nt")), "nqdoc " + cps(ds.serialize(format="nquads"))]
+        nt, nq = g.serialize(format="nt"), ds.serialize(format="nquads")
+        return (["ntdoc " + cps(nt), "nqdoc " + cps(nq)] + ntp_lines(nt, False, whole=False, sort=True) +
+                ntp_lines(nq, True, whole=False, sort=True))
     if k == "doc":
         if case["fmt"] in ("nt", "nquads"):
             return [("nqdoc " if case["fmt"] == "nquads" else "ntdoc ") + cps(case["doc"])]
@@ -1173,7 +1273,8 @@ def model_lines(case):
     if k == "w3c":
         d, tests = w3c_tests(case["suite"])
         cmd = "nqdoc " if case["suite"] == "nquads" else "ntdoc "
-        return [cmd + cps(open(os.path.join(d, n), encoding="utf-8", newline="").read()) for n, _ in tests]
+        docs = [open(os.path.join(d, n), encoding="utf-8", newline="").read() for n, _ in tests]
+        return [cmd + cps(x) for x in docs] + [cmd[:2] + "pd " + cps(x) for x in docs]
     fmt, quads, off = case["fmt"], case["quads"], case.get("off", [])
     if not expressible(fmt, quads):
         return []
@@ -1189,10 +1290,28 @@ def model_lines(case):
                 lines.append(("nqdoc " if fmt == "nquads" else "ntdoc ") + cps("\ufeff" + doc))
             else:                           # the mark is skipped on the byte route as on the others
                 lines.append(f"route {fmt} bytes " + cps("\ufeff" + doc[:8]))
+    if fmt in ("nt", "nquads"):
+        for seed in case["streams"]:
+            doc, _ch = render(fmt, quads, seed, off, case.get("base"))
+            lines += ntp_lines(doc, fmt == "nquads")
     return lines
 
 
+NTP_CMDS = ("ntpl", "nqpl", "ntpd", "nqpd")
+
+
 def select_model_obs(case, out):
+    """answers to the questions put to the model of rdflib's parser (always the last lines of a case) are pushed
+    through the Literal constructor like the parser's own results; the other lines as before"""
+    ins = model_lines(case)
+    first = next((i for i, l in enumerate(ins) if l.split(" ", 1)[0] in NTP_CMDS), None)
+    if first is None or len(ins) != len(out):
+        return _select_model_obs(case, out)
+    new = [ntp.canon_model(o, ins[i][:2] == "nq", ins[i][2:4] == "pd") for i, o in zip(range(first, len(out)), out[first:])]
+    return (_select_model_obs(case, out[:first]) if first else []) + new
+
+
+def _select_model_obs(case, out):
     k = case["kind"]
     if k == "utf8":
         return [o.strip() for o in out]
